@@ -29,6 +29,7 @@ from torch.autograd.functional import jacobian  # noqa: E402
 import c06_gen as G  # noqa: E402
 import c07_torch as TT  # noqa: E402
 import c07_extra as X  # noqa: E402
+import c07_scale as SC  # noqa: E402
 
 torch.set_num_threads(2)
 DT = torch.float64
@@ -668,6 +669,7 @@ def run(ck: Check):
             if sig not in found or size < found[sig][0]:
                 found[sig] = (size, what, rep)
 
+        SC.run_section(ck, rng, record)
         X.section_routes(ck, rng, record)
         X.section_cli_unconstrained(ck, rng, record)
         X.section_dtypes(ck, rng, record)
@@ -721,6 +723,10 @@ def replay(path: str) -> int:
         check_heights(_Ck(), None, G.parse_paren(obj["tree"]), obj["dates"], obj["kind"], obj.get("k"), obj["x"],
                       obj["batched"], fails)
         print(f"{obj['kind']} node-height transform on {obj['tree']} dates {obj['dates']} at {obj['x']}")
+    elif typ in ("scale-ratio", "scale-other"):
+        for sig, what in SC.replay(obj):
+            fails.append((sig, what))
+        print(f"scale case {obj.get('label', obj.get('name'))}: {obj.get('tree', '')} dates {obj.get('dates')} x {obj.get('x')}")
     elif typ == "tp-route":
         rc = X.replay_tp_route(obj)
         print("VIOLATES" if rc else "property holds on this input")
